@@ -51,6 +51,9 @@ DenText(s, v) ==
       [] s = "-a"      -> 0 - v.a
       [] s = "(x-y)"   -> v.x - v.y
       [] s = "x*2"     -> v.x * 2
+      [] s = "2*x"     -> 2 * v.x
+      [] s = "6/y"     -> 6 \div v.y
+      [] s = "x/2"     -> v.x \div 2
       \* join elements
       [] s = "+x"      -> v.x
       [] s = "-x"      -> 0 - v.x
